@@ -105,6 +105,7 @@ def run(ctx):
                 break
         ctx.count('schedule-pairs')
     mixed_dtype_stream(ctx)
+    subgroup_stream(ctx)
     gloo_stream(ctx)
     interpreter_stream(ctx)
     neox_stream(ctx)
@@ -132,6 +133,60 @@ def mixed_dtype_stream(ctx):
         kfacsim.oracle_trace(ctx, cfg, rr, key_prefix='mixed-dtype-trace')
         ctx.case('mixdt' + str(cfg.key()), nontrivial=True, sample=dict(cfg.describe(), sched_seed=cfg.sched_seed))
         ctx.count('mixed-dtype')
+
+
+def subgroup_stream(ctx):
+    """the communicator on several DIFFERENT groups of equal size inside one flush window (pairwise groups on three or four
+    ranks, as a user of `allreduce_bucketed(group=…)` or a per-layer reduction group creates them): every collective a rank
+    enters is entered by exactly the members of its group, nothing stalls, and every future resolves to the group's sum
+    (C03-mutU keyed the open buckets by group SIZE: tensors of two groups shared one bucket)"""
+    import torch
+    import simdist
+    from kfac.distributed import TorchDistributedCommunicator
+    rng = ctx.rng
+    for i in range(ctx.budget(6, 40)):
+        world = rng.choice([3, 4])
+        pairs = [(a, b) for a in range(world) for b in range(a + 1, world)]
+        rng.shuffle(pairs)
+        pairs = pairs[:rng.randrange(2, len(pairs) + 1)]
+        nt = rng.randrange(1, 4)
+        cap = rng.choice([25.0, 0.00002])
+        case = {'stream': 'subgroups', 'world': world, 'groups': pairs, 'tensors_per_group': nt, 'bucket_cap_mb': cap}
+
+        def prog(rank, pairs=pairs, nt=nt, cap=cap):
+            import torch.distributed as dist
+            groups = [dist.new_group(list(pr)) for pr in pairs]
+            comm = TorchDistributedCommunicator(bucket_cap_mb=cap)
+            futs = []
+            for gi, (pr, grp) in enumerate(zip(pairs, groups)):
+                if rank not in pr:
+                    continue
+                for t in range(nt):
+                    x = torch.full((2 + t,), float(100 * (rank + 1) + 10 * gi + t), dtype=torch.float64)
+                    futs.append((gi, t, comm.allreduce_bucketed(x, group=grp)))
+            comm.flush_allreduce_buckets()
+            out = []
+            for gi, t, f in futs:
+                v = f.wait() if hasattr(f, 'wait') else f
+                v = v[0] if isinstance(v, (list, tuple)) else v
+                out.append((gi, t, v.tolist()))
+            return out
+        wd, res = simdist.run_world(world, prog, seed=ctx.seed * 389 + i, stickiness=rng.choice([0.0, 0.5, 0.9]))
+        if wd.stalled or wd.errors or wd.exceptions:
+            ctx.fail(f'bucketed all-reduces on the groups {pairs} of {world} ranks: stalled={wd.stalled} errors={wd.errors[:1]} '
+                     f'exceptions={dict(list(wd.exceptions.items())[:1])}', case, 'subgroup-run')
+            continue
+        bad = None
+        for rank in range(world):
+            for gi, t, v in res[rank]:
+                want = [float(sum(100 * (r + 1) + 10 * gi + t for r in pairs[gi]))] * (2 + t)
+                if v != want and bad is None:
+                    bad = f'rank {rank}: tensor {t} of group {pairs[gi]} resolved to {v}, the group\'s sum is {want}'
+        if bad:
+            ctx.fail(bad, case, 'subgroup-values')
+        ctx.evaluations += 1
+        ctx.case(('subgroups', world, tuple(pairs), nt, cap), nontrivial=True)
+        ctx.count('subgroup-windows')
 
 
 def neox_stream(ctx):
